@@ -18,6 +18,7 @@ RULE = (
     "norm(raw) for a raw between two backtick runs of len(markup) in the enclosing inline content; fence markup+info = tail of the "
     "opening line (run not extensible to the left); ATX/setext/hr/list/blockquote markup, list info and start = what is written. "
     "Non-trivial = document with >=1 verbatim block, code span or marked-up block; distinct by (conf id, source)."
+    " A code span must end at the first backtick string of its delimiter length."
 )
 ASSUMPTIONS = [
     "suffix-based: a dropped character that itself looks like a container marker at the very start of code content would be accepted (C06/C17 twins cover that angle)",
